@@ -147,7 +147,7 @@ func ruleC04(c *Ctx, r *Report) {
 						fmt.Sprintf("the command walker writes %s (query-bearing keys are %v): a member outside the zones is altered", keyDesc, keysOfForms()))
 				case f == nsFn:
 					okRecv := peel(recv) == ssa.Value(nsFn.Params[0])
-					okKey := false
+					okKey := isConst // a rewrite written out for one constant key
 					for _, l := range iterLoops(nsFn) {
 						if l.Kind == "slice" && len(varargValues(l.Coll)) > 0 && derivesFromElem(cc.Args[1], l) {
 							okKey = true
